@@ -50,6 +50,9 @@ type faultPlan struct {
 	crashMode simfs.CrashMode
 	// second crash while reopening after the first (index on the image), -1 = none
 	secondAt int
+	// fmFail only: crash (crashMode) this many I/O calls after the injected
+	// error, counted over every disk image of the execution; 0 = none
+	crashAfter int
 }
 
 // sim is one execution of a workload against the real store and the model.
@@ -71,6 +74,8 @@ type sim struct {
 	handled    bool
 	postFault  bool // a fault fired earlier in this execution: block-file layout no longer predictable
 	restarts   int
+	sinceFault int  // I/O calls since the injected error (crashAfter plans)
+	crashFired bool // the crash that follows the injected error has happened
 
 	// durability tracking
 	lastFlush     uint64
@@ -116,6 +121,18 @@ func (s *sim) injector() simfs.Injector {
 	return func(p simfs.IOPoint) simfs.Decision {
 		if s.inCommit && p.Kind == simfs.OpWrite && strings.HasSuffix(p.Path, ".fdb") {
 			s.blockWrites++
+		}
+		if s.armed && s.fired && s.plan.crashAfter > 0 && !s.crashFired {
+			s.sinceFault++
+			if s.sinceFault == s.plan.crashAfter {
+				s.crashFired = true
+				d := simfs.Decision{Action: simfs.ActCrash}
+				if p.Kind == simfs.OpWrite && p.Len > 1 && s.plan.salt%5 == 1 {
+					d.N = 1 + int(s.plan.salt/5)%(p.Len-1)
+				}
+				return d
+			}
+			return simfs.Decision{}
 		}
 		if !s.armed || s.fired || p.Index != s.plan.at {
 			return simfs.Decision{}
